@@ -6,5 +6,8 @@ cd "$(dirname "$0")/h"
 cp /repo/go.sum go.sum
 mkdir -p bin
 go build -o bin/vcheck ./cmd/vcheck
+# the Postgres model is the trusted base of the SQL-anchored checks: its self-test (99 cases, each
+# citing the documentation rule it encodes) must pass before any property is run
+bin/vcheck selftest
 [ -x ./k5/run.sh ] && ./k5/run.sh build || true
 echo setup ok
